@@ -12,6 +12,12 @@ def programs(tier, rnd: random.Random):
         progs.append(g.program(nstmts=rnd.randint(1, 4), depth=rnd.randint(1, 3), hybrids=rnd.choice([0.0, 0.0, 0.3])))
     progs += ["{ RdV = (RsV < RtV) + (RsV == RtV); }", "{ RdV = (RsV < RtV) == (RuV < RvV); }", "{ if (RsV < RtV) { RdV = RsV && RtV; } }",
               "{ RdV = (RsV && RtV) ? 1 : 2; }", "{ if (!RsV) { RdV = 1; } }", "{ for (i = 0; !(i == 3); i++) { RxV = i; } }"]
+    # every kind of controlling expression in every position that takes a condition (if, ?:, for): logical operators whose operands are
+    # integers, comparisons, mixtures; plain integers; negations -- a condition must reach BRANCH / ITE / REPEAT as a boolean, exactly once wrapped
+    conds = ["RsV && RtV", "RsV || RtV", "!RsV", "(i < 2) && RsV", "RsV && (i < 2)", "!(RsV && RtV)", "!!RsV", "RsV", "i < 2", "(RsV < RtV) || RuV", "!RsV && !RtV"]
+    for c_ in conds:
+        progs += ["{ i = 0; if (%s) { RdV = 1; } }" % c_, "{ i = 0; RdV = (%s) ? 1 : 2; }" % c_,
+                  "{ RdV = 0; for (i = 0; (%s) && (i < 2); i++) { RdV = RdV + 1; } }" % c_, "{ RdV = 0; for (i = 0; %s; i++) { RdV = RdV + 1; if (i > 1) { RsV = 0; RtV = 0; RuV = 0; } } }" % c_]
     return progs
 
 
